@@ -121,6 +121,17 @@ CHECKS = {
         note="An exposed free function stored in an attribute is explored but not judged; one serializer (gates are serializer independent).",
         design_ref="DESIGN.md section 3 C02",
     ),
+    "C16": dict(
+        engine="S+N",
+        technique="explicit-state breadth-first search over registry histories, each replayed on a fresh real daemon over the in-memory transport, against a dict model",
+        text="BFS over histories of ~55 operations (register instances/class with explicit, colliding, generated and reserved ids, force and weak flags; unregister by object "
+             "and by id; dropping the last application reference followed by a collection) to depth 3 (quick) / 4 (thorough), states deduplicated by registry contents, "
+             "per-object registration attributes and liveness. In every state the ids reported by the daemon, the target of a call to every id, uriFor, and the way each "
+             "pool object travels when returned from a remote method (proxy reaching that very object, or by value exactly like a never-registered instance; serpent, "
+             "json, msgpack) are compared with the model; refusals are compared operation by operation.",
+        note="Forced replacement of the daemon's own id and forcing one object under two ids are explored but not judged; depth/state caps in evidence.",
+        design_ref="DESIGN.md section 3 C16",
+    ),
 }
 
 NOT_YET = {}
